@@ -114,17 +114,52 @@ func (pe *PodEvictor) NamespaceLimitExceeded(namespace string) bool {
 	return false
 }
 
+// reserve checks the per-node and per-namespace caps and, unless one of them is reached or the
+// evictor runs in dry-run mode, counts the eviction that is about to be issued.
+func (pe *PodEvictor) reserve(pod *corev1.Pod) (nodeLimitExceeded, namespaceLimitExceeded bool) {
+	pe.lock.Lock()
+	defer pe.lock.Unlock()
+	if pe.maxPodsToEvictPerNode != nil && pe.nodepodCount[pod.Spec.NodeName] >= *pe.maxPodsToEvictPerNode {
+		return true, false
+	}
+	if pe.maxPodsToEvictPerNamespace != nil && pe.namespacePodCount[pod.Namespace] >= *pe.maxPodsToEvictPerNamespace {
+		return false, true
+	}
+	if !pe.dryRun {
+		if pod.Spec.NodeName != "" {
+			pe.nodepodCount[pod.Spec.NodeName]++
+		}
+		pe.namespacePodCount[pod.Namespace]++
+		pe.totalCount++
+	}
+	return false, false
+}
+
+// unreserve gives back the slot of an eviction that failed.
+func (pe *PodEvictor) unreserve(pod *corev1.Pod) {
+	pe.lock.Lock()
+	defer pe.lock.Unlock()
+	if pod.Spec.NodeName != "" {
+		pe.nodepodCount[pod.Spec.NodeName]--
+	}
+	pe.namespacePodCount[pod.Namespace]--
+	pe.totalCount--
+}
+
 func (pe *PodEvictor) Evict(ctx context.Context, pod *corev1.Pod, opts framework.EvictOptions) bool {
 	framework.FillEvictOptionsFromContext(ctx, &opts)
 
 	nodeName := pod.Spec.NodeName
-	if pe.NodeLimitExceeded(nodeName) {
+	// check the caps and reserve the slot in one critical section, so that concurrent callers
+	// cannot all pass the check before any of them is counted.
+	nodeLimitExceeded, namespaceLimitExceeded := pe.reserve(pod)
+	if nodeLimitExceeded {
 		metrics.PodsEvicted.With(map[string]string{"result": "maximum number of pods per node reached", "strategy": opts.PluginName, "namespace": pod.Namespace, "node": nodeName}).Inc()
 		klog.ErrorS(fmt.Errorf("maximum number of evicted pods per node reached"), "Error evicting pod", "limit", *pe.maxPodsToEvictPerNode, "node", nodeName)
 		return false
 	}
 
-	if pe.NamespaceLimitExceeded(pod.Namespace) {
+	if namespaceLimitExceeded {
 		metrics.PodsEvicted.With(map[string]string{"result": "maximum number of pods per namespace reached", "strategy": opts.PluginName, "namespace": pod.Namespace, "node": nodeName}).Inc()
 		klog.ErrorS(fmt.Errorf("maximum number of evicted pods per namespace reached"), "Error evicting pod", "limit", *pe.maxPodsToEvictPerNamespace, "namespace", pod.Namespace)
 		return false
@@ -138,18 +173,9 @@ func (pe *PodEvictor) Evict(ctx context.Context, pod *corev1.Pod, opts framework
 			// err is used only for logging purposes
 			klog.ErrorS(err, "Error evicting pod", "pod", klog.KObj(pod), "reason", opts.Reason)
 			metrics.PodsEvicted.With(map[string]string{"result": "error", "strategy": opts.PluginName, "namespace": pod.Namespace, "node": nodeName}).Inc()
+			pe.unreserve(pod)
 			return false
 		}
-
-		func() {
-			pe.lock.Lock()
-			defer pe.lock.Unlock()
-			if pod.Spec.NodeName != "" {
-				pe.nodepodCount[pod.Spec.NodeName]++
-			}
-			pe.namespacePodCount[pod.Namespace]++
-			pe.totalCount++
-		}()
 
 		metrics.PodsEvicted.With(map[string]string{"result": "success", "strategy": opts.PluginName, "namespace": pod.Namespace, "node": nodeName}).Inc()
 
